@@ -147,6 +147,16 @@ def vio(kind, inp, detail):
 
 
 def run_case(kind, nt, ns, bpv, bs, fmt, dt_us, t0, hd):
+    try:
+        return run_case_(kind, nt, ns, bpv, bs, fmt, dt_us, t0, hd)
+    except Exception as e:
+        # an exception escaping from a read of a freshly written, complete file is itself a failure of the property
+        import traceback
+        R.violation('oracle', {'kind': kind, 'n_traces': nt, 'n_samples': ns, 'format': fmt, 'bpv': bpv, 'blockshape': list(bs), 'header_detection': hd},
+                    f'a read of a complete 2D file raised {type(e).__name__}: {e} ({traceback.format_exc().strip().splitlines()[-3].strip()[:120]})')
+
+
+def run_case_(kind, nt, ns, bpv, bs, fmt, dt_us, t0, hd):
     sgy, src, hdrs, samples, det = make_source(kind, nt, ns, fmt, dt_us, t0)
     p = os.path.join(d, f'g{rng.randrange(10 ** 9)}.sgz')
     label = f'{kind} {nt}x{ns} fmt{fmt} bpv={bpv} bs={bs} hd={hd}'
@@ -420,6 +430,9 @@ try:
             run_case('2d', nt, rng.choice([2, 3, 5, 9, 12, bs2 + 1, bs2 + 6, 2 * bs2 + 3]), bpv, bs, 5, 4000, 0, 'heuristic')
     for ns in ((3, 4, 5, 6, 7, 8, 9, 10, 11, 12) if not quick else (5, 6, 7, 8)):
         run_case('2d', rng.choice([5, 6, 7, 9]), ns, 8, (1, 1024, 4), 5, 2000, 0, 'heuristic')
+    # trace counts whose header arrays are an exact multiple of 512 bytes (footer stride boundary): 128 traces, and one either side
+    for nt in ((127, 128, 129) if quick else (127, 128, 129, 255, 256, 257)):
+        run_case('2d', nt, rng.choice([5, 9]), 8, (1, 16, -1), 5, 4000, 0, rng.choice(['heuristic', 'thorough']))
     refusals()
     batch_model()
 finally:
